@@ -97,7 +97,7 @@ def detect(patch):
                          "what": what, "wall_s": round(time.time() - t0, 1)}
         first = one(ids[0])
         res[first[0]] = first[1]
-        with concurrent.futures.ThreadPoolExecutor(max_workers=6) as ex:
+        with concurrent.futures.ThreadPoolExecutor(max_workers=8) as ex:
             for pid, r in ex.map(one, ids[1:]):
                 res[pid] = r
     finally:
@@ -110,18 +110,27 @@ def detect(patch):
 def main():
     name, prop, wt, patch, demo = sys.argv[1:6]
     needs = sys.argv[sys.argv.index("--needs") + 1] if "--needs" in sys.argv else ""
-    ok, info = confirm(wt, patch, demo)
-    print("confirm:", ok, json.dumps({k: v for k, v in info.items() if k not in ("with_patch", "without_patch_demo")}))
-    if not ok:
-        print(json.dumps(info, indent=1)[:3000])
-        return 2
+    old_meta = os.path.join(ROOT, "seeded", name, "meta.json")
+    if "--detect-only" in sys.argv and os.path.exists(old_meta):
+        # re-run of step B only, for a change that was already confirmed in its scratch worktree (step A is kept from then)
+        info = json.load(open(old_meta))["confirmed"]
+        patch = os.path.join(ROOT, "seeded", name, "patch.diff")
+        demo = os.path.join(ROOT, "seeded", name, "demo.rs")
+        needs = needs or json.load(open(old_meta)).get("needs_to_manifest", "")
+    else:
+        ok, info = confirm(wt, patch, demo)
+        print("confirm:", ok, json.dumps({k: v for k, v in info.items() if k not in ("with_patch", "without_patch_demo")}))
+        if not ok:
+            print(json.dumps(info, indent=1)[:3000])
+            return 2
     res = detect(patch)
     caught = sorted(p for p, r in res.items() if r["violation"])
     with_input = sorted(p for p, r in res.items() if r["violation"] and not r["no_failing_input"])
     d = os.path.join(ROOT, "seeded", name)
     os.makedirs(d, exist_ok=True)
-    shutil.copy(patch, os.path.join(d, "patch.diff"))
-    shutil.copy(demo, os.path.join(d, "demo.rs"))
+    if os.path.abspath(patch) != os.path.abspath(os.path.join(d, "patch.diff")):
+        shutil.copy(patch, os.path.join(d, "patch.diff"))
+        shutil.copy(demo, os.path.join(d, "demo.rs"))
     meta = {"name": name, "breaks_property": prop, "needs_to_manifest": needs,
             "base_commit": sh(["git", "-C", "/repo", "rev-parse", "HEAD"])[1].strip(),
             "confirmed": info,
